@@ -276,6 +276,29 @@ def regex_method(interp, recv, name, args, kwargs, fr):
                     interp.digit_terms = set()
                 interp.digit_terms.add(gf(text).sexpr())
         return OptV(z3.Not(ok), m)
+    if name in ("search", "fullmatch"):
+        text = zstr(args[0])
+        tr = translate(recv)
+        anyc = z3.Star(_chars_re(range(128)))
+        if name == "search":
+            if "^" in recv.pattern or "\\A" in recv.pattern:
+                raise Unsupported("regex search with a start anchor")
+            lang = z3.Concat(anyc, tr.match_re())
+        else:
+            lang = tr.body
+        interp.trusted.add(f"re: Pattern.{name}(s) succeeds iff s is in " + ("Sigma*.R.Sigma*" if name == "search" else "R") +
+                           " (R translated from the compiled pattern, ASCII); capture groups are functions of (pattern, s) lying in their group's language")
+        ok = z3.InRe(text, lang)
+        m = MatchV(recv, text, tr)
+        m.how = name
+        for g, r in tr.groups.items():
+            gf = z3.Function(f"re_group_{name}_{_fname(recv)}_{g}", z3.StringSort(), z3.StringSort())
+            interp.run.assume(z3.Implies(ok, z3.InRe(gf(text), r)))
+            if g in tr.digit_groups:
+                if not hasattr(interp, "digit_terms"):
+                    interp.digit_terms = set()
+                interp.digit_terms.add(gf(text).sexpr())
+        return OptV(z3.Not(ok), m)
     raise Unsupported(f"regex method {name}")
 
 
@@ -315,7 +338,8 @@ def match_method(interp, m, name, args, kwargs, fr):
             return gm[args[0]]
 
     def grp(g):
-        gf = z3.Function(f"re_group_{_fname(m.rx)}_{g}", z3.StringSort(), z3.StringSort())
+        how = getattr(m, "how", None)
+        gf = z3.Function(f"re_group_{how + '_' if how else ''}{_fname(m.rx)}_{g}", z3.StringSort(), z3.StringSort())
         return gf(m.text)
     if name == "groups":
         return tuple(grp(g) for g in sorted(m.tr.groups))
